@@ -270,4 +270,84 @@ theorem kernelTok_parses (t : Bytes) (h : isKernelTok t = true) : ∃ n, parseDe
   | nil => exact absurd rfl hne
   | cons c cs => exact parseAux_digits (c :: cs) 0 hd
 
+/-! ### … and the grammar is exactly what the renderer prints -/
+
+theorem rr_lt (n : Nat) (acc : Bytes) (h : n < 10) : renderRadixAux decimal n acc = (48 + n) :: acc := by
+  rw [renderRadixAux]; simp [decimal, h]
+
+theorem rr_ge (n : Nat) (acc : Bytes) (h : ¬ n < 10) :
+    renderRadixAux decimal n acc = renderRadixAux decimal (n / 10) ((48 + n % 10) :: acc) := by
+  rw [renderRadixAux]; simp [decimal, h]
+
+theorem renderAux_acc (n : Nat) : ∀ acc : Bytes,
+    renderRadixAux decimal n acc = renderRadixAux decimal n [] ++ acc := by
+  induction n using Nat.strongRecOn with
+  | _ n ih =>
+    intro acc
+    by_cases h : n < 10
+    · rw [rr_lt n acc h, rr_lt n [] h]; rfl
+    · have hlt : n / 10 < n := by omega
+      rw [rr_ge n acc h, rr_ge n [] h, ih _ hlt ((48 + n % 10) :: acc), ih _ hlt [48 + n % 10]]
+      simp
+
+theorem renderDec_snoc (v d : Nat) (hv : 0 < v) (hd : d < 10) :
+    renderDec (v * 10 + d) = renderDec v ++ [48 + d] := by
+  unfold renderDec renderRadix
+  rw [rr_ge _ _ (by omega)]
+  have e1 : (v * 10 + d) / 10 = v := by omega
+  have e2 : (v * 10 + d) % 10 = d := by omega
+  rw [e1, e2, renderAux_acc]
+
+theorem renderDec_small (d : Nat) (hd : d < 10) : renderDec d = [48 + d] := by
+  unfold renderDec renderRadix
+  exact rr_lt d [] hd
+
+/-- digits without a leading zero are the rendering of a positive number (stated on the reversed string) -/
+theorem digits_render_rev : ∀ (r : Bytes), r ≠ [] → (∀ c ∈ r, isDigit c = true) → r.reverse.head? ≠ some 48 →
+    ∃ n, 0 < n ∧ r.reverse = renderDec n := by
+  intro r
+  induction r with
+  | nil => intro h; exact absurd rfl h
+  | cons c ds ih =>
+    intro _ hdig hhead
+    have hc := hdig c (by simp)
+    simp only [isDigit, Bool.and_eq_true, decide_eq_true_eq] at hc
+    by_cases hds : ds = []
+    · subst hds
+      simp at hhead
+      refine ⟨c - 48, by omega, ?_⟩
+      rw [renderDec_small _ (by omega)]
+      simp; omega
+    · have hne : ds.reverse ≠ [] := by simpa using hds
+      have hh : ds.reverse.head? ≠ some 48 := by
+        intro hx
+        apply hhead
+        simp only [List.reverse_cons]
+        cases hr : ds.reverse with
+        | nil => exact absurd hr hne
+        | cons x xs => rw [hr] at hx; simpa using hx
+      obtain ⟨v, hv, he⟩ := ih hds (fun x hx => hdig x (by simp [hx])) hh
+      refine ⟨v * 10 + (c - 48), by omega, ?_⟩
+      rw [renderDec_snoc v (c - 48) hv (by omega), List.reverse_cons, he]
+      congr 2; omega
+
+theorem digits_render (t : Bytes) (hne : t ≠ []) (hd : ∀ c ∈ t, isDigit c = true) (hh : t.head? ≠ some 48) :
+    ∃ n, 0 < n ∧ t = renderDec n := by
+  have := digits_render_rev t.reverse (by simpa using hne) (fun c hc => hd c (by simpa using hc)) (by simpa using hh)
+  simpa using this
+
+theorem kernelTok_is_render (t : Bytes) (h : isKernelTok t = true) : ∃ n, t = renderDec n := by
+  match t, h with
+  | [d], h =>
+    have hd : isDigit d = true := by simpa [isKernelTok] using h
+    simp only [isDigit, Bool.and_eq_true, decide_eq_true_eq] at hd
+    refine ⟨d - 48, ?_⟩
+    rw [renderDec_small _ (by omega)]
+    congr 1; omega
+  | d :: x :: xs, h =>
+    have hh := kernelTok_digits _ h
+    simp only [isKernelTok, Bool.and_eq_true, decide_eq_true_eq] at h
+    obtain ⟨n, _, hn⟩ := digits_render (d :: x :: xs) (by simp) hh.2 (by simpa using h.1.2)
+    exact ⟨n, hn⟩
+
 end Psutil.C07
